@@ -254,19 +254,19 @@ Lemma apply_fields m toks : separated toks = true -> forall st,
   pmi (apply_toks toks m st) = (if has_spec 105 toks || has_spec 84 toks then Some (mi m) else pmi st) /\
   psec (apply_toks toks m st) = (if has_spec 115 toks || has_spec 83 toks || has_spec 84 toks then Some (ss m) else psec st) /\
   pus (apply_toks toks m st) = (if has_spec 102 toks then Some (us m) else pus st) /\
-  pam (apply_toks toks m st) = pam st /\ has_spec 112 toks = false.
+  pam (apply_toks toks m st) = pam st /\ has_spec 112 toks = false /\ pdoy (apply_toks toks m st) = pdoy st.
 Proof.
   induction toks as [|t r IH]; intros Hs st; [cbn; repeat split; reflexivity|].
   destruct (separated_head t r Hs) as [Hs1 Hs2]. specialize (IH Hs2).
   destruct t as [c|c].
-  - cbn [apply_toks apply_tok]. destruct (IH st) as (I1 & I2 & I3 & I4 & I5 & I6 & I7 & I8 & I9).
+  - cbn [apply_toks apply_tok]. destruct (IH st) as (I1 & I2 & I3 & I4 & I5 & I6 & I7 & I8 & I9 & I10).
     unfold has_spec in *. cbn [existsb orb]. repeat split; assumption.
   - cbn [separated] in Hs1. rewrite andb_true_r in Hs1. apply andb_prop in Hs1. destruct Hs1 as [Ha _].
     cbn [apply_toks].
-    destruct (IH (apply_tok (TSpec c) m st)) as (I1 & I2 & I3 & I4 & I5 & I6 & I7 & I8 & I9).
-    rewrite I1, I2, I3, I4, I5, I6, I7, I8. unfold has_spec in *. cbn [existsb].
+    destruct (IH (apply_tok (TSpec c) m st)) as (I1 & I2 & I3 & I4 & I5 & I6 & I7 & I8 & I9 & I10).
+    rewrite I1, I2, I3, I4, I5, I6, I7, I8, I10. unfold has_spec in *. cbn [existsb].
     destruct (allowed_cases c Ha) as [->|[->|[->|[->|[->|[->|[->|[->|[->|[->|[->|[->| ->]]]]]]]]]]]];
-      cbn [apply_tok N.eqb Pos.eqb orb py pmo pd ph pmi psec pus pam set_y set_mo set_d set_h set_mi set_s set_us];
+      cbn [apply_tok N.eqb Pos.eqb orb py pmo pd ph pmi psec pus pam pdoy set_y set_mo set_d set_h set_mi set_s set_us];
       repeat split; try assumption;
       repeat match goal with |- context [existsb ?f r] => destruct (existsb f r) end; reflexivity.
 Qed.
@@ -381,7 +381,7 @@ Proof.
   specialize (EndR Hne He).
   exists R. split; [rewrite (render_tokens fmt toks m Ht); exact ER|].
   unfold str_to_date. rewrite Ht.
-  destruct (apply_fields m toks Hs pst0) as (F1 & F2 & F3 & F4 & F5 & F6 & F7 & F8 & F9).
+  destruct (apply_fields m toks Hs pst0) as (F1 & F2 & F3 & F4 & F5 & F6 & F7 & F8 & F9 & F10).
   assert (Hconf : ampm_conflict toks = false).
   { unfold ampm_conflict. destruct (first_time_spec toks); [|reflexivity]. rewrite F9. apply andb_false_r. }
   rewrite Hconf.
@@ -393,7 +393,7 @@ Proof.
   rewrite C1 in F1. rewrite C2 in F2. rewrite C3 in F3. rewrite C4 in F4. rewrite C5 in F5. rewrite C6 in F6.
   set (st := apply_toks toks m pst0) in *.
   assert (Hemp : is_empty st = false) by (unfold is_empty; rewrite F1; reflexivity).
-  rewrite Hemp. unfold eval. rewrite F1, F2, F3, F4, F5, F6, F7. cbn [dflt].
+  rewrite Hemp. unfold eval. rewrite F10. cbn [pdoy pst0]. rewrite F1, F2, F3, F4, F5, F6, F7. cbn [dflt].
   assert (Hus : dflt (if has_spec 102 toks then Some (us m) else pus pst0) = us m).
   { destruct Hf as [Hf|Hf]; [rewrite Hf; reflexivity|]. destruct (has_spec 102 toks); cbn; lia. }
   rewrite Hus. destruct Hm as (Hy & Hv & Hh & Hi & Hse & Hu).
